@@ -221,7 +221,11 @@ def run_case(case):
         if (case["start"] + j) % 257 == 0 and err is None:
             d2, f2, _ = VS.fill_fresh(method, din, fin, offset)
             if not (D.arr_eq(d2, dout) and D.arr_eq(f2, fout)):
-                raise AssertionError("re-used dataset and fresh dataset give different results")  # harness self-check
+                # the same map gives two different results: at most one of them can be what the reference says, so
+                # the fresh one is judged as well; only if BOTH pass is the harness (its re-used dataset) to blame
+                _verdicts(method, din, fin, d2, f2, offset, None, "interpolated_disparity", viol, [])
+                if not viol:
+                    raise AssertionError("re-used dataset and fresh dataset give different results")  # self-check
     return {"n": n, "sigs": sorted(sigs), "viol": list(viol.values()), "trivial": trivial}
 
 
